@@ -30,7 +30,8 @@ Definition limit_tables_ok (T : limit_tables) : bool :=
   forallb (λ t, bool_decide (assoc (t_gatemap T) t = Some (base_op t))) [And; Nand; Or; Nor; Xor; Xnor]
   && forallb (λ p, bool_decide (p.1 ∈ [And; Nand; Or; Nor; Xor; Xnor])) (t_gatemap T)
   && bool_decide (multi_types ≡ₚ [And; Nand; Or; Nor; Xor; Xnor])
-  && bool_decide (t_helper T = Buf) && (t_in_min T =? 2)%nat && (t_out_min T =? 2)%nat.
+  && bool_decide (t_helper T = Buf) && (t_in_min T =? 2)%nat && (t_out_min T =? 2)%nat
+  && negb (has_dot (t_in_suffix T)) && negb (has_dot (t_out_suffix T)).
 
 (* ---- the node loop: `for n in ck.nodes(): i = 0; while ...: ...; i += 1` seen from the step list ----
    A step names the node it works on; consecutive steps on the same node count i = 0, 1, ...; a node that
